@@ -198,6 +198,11 @@ func run(id, tier string) int {
 			continue
 		}
 		cmd := exec.Command(self, "replay-raw", id, k.Replay)
+		if c.Race {
+			rdir := filepath.Join(scratch, "replay-race")
+			_ = os.MkdirAll(rdir, 0o755)
+			cmd.Env = append(os.Environ(), "GORACE=log_path="+filepath.Join(rdir, "race")+" halt_on_error=0 exitcode=0", "VERIF_RACE_DIR="+rdir)
+		}
 		cmd.SysProcAttr = &syscall.SysProcAttr{Setpgid: true}
 		cmd.Stderr = os.Stderr
 		procs.Store(cmd, true)
@@ -254,6 +259,11 @@ func run(id, tier string) int {
 			sdir := filepath.Join(scratch, fmt.Sprintf("s%02d", i))
 			out := filepath.Join(scratch, fmt.Sprintf("r%02d.json", i))
 			cmd := exec.Command(self, "shard", id, tier, strconv.Itoa(i), strconv.Itoa(nshards), strconv.Itoa(cases), sdir, out)
+			if c.Race {
+				// the check binary is built with -race: reports go to files the shard reads after every case
+				_ = os.MkdirAll(sdir, 0o755)
+				cmd.Env = append(os.Environ(), "GORACE=log_path="+filepath.Join(sdir, "race")+" halt_on_error=0 exitcode=0", "VERIF_RACE_DIR="+sdir)
+			}
 			cmd.SysProcAttr = &syscall.SysProcAttr{Setpgid: true}
 			cmd.Stderr = os.Stderr
 			cmd.Stdout = os.Stderr
